@@ -195,7 +195,7 @@ Definition dispatch (code : Z) (arg : sx) : option sx :=
   | 714 => Some (match sx_skdoc arg with Some d => SS (dfxp_document d) | None => bad end)   (* the rendered document *)
   | 715 => Some (match arg with          (* a document text -> [accepted by the document machine; ns_ok; tt in TTML ns; elements] *)
                  | SS s => match doc_parse s with
-                           | Some evs => SL [of_bool true; of_bool (ns_ok evs); of_bool (root_in_ns (lit "tt") ttml_ns evs);
+                           | Some evs => SL [of_bool true; of_bool (ns_ok evs); of_bool (root_in_ns (lit "tt") spec_ttml_ns evs);
                                              SI (count_opens evs)]
                            | None => SL [of_bool false; of_bool false; of_bool false; SI 0] end
                  | _ => bad end)
